@@ -61,10 +61,10 @@ package util
 //@   ensures[C12.adjacent] forall j :: 1 <= j && j < len(result) ==> input[result[j-1]] != input[result[j]]
 //@   ensures[C12.runs]   forall k, j :: k in input && 0 <= j && j < len(result) && result[j] <= k && (j == len(result)-1 || k < result[j+1]) ==> input[result[j]] == input[k]
 //@   ensures[C12.nonempty C01 C05] len(input) > 0 ==> len(result) > 0
-//@   ensures[fresh] len(result) > 0 ==> fresh(arrayOf(result))
+//@   ensures[fresh] arrayOf(result) == 0 || fresh(arrayOf(result))
 //@   modifies nothing
 //@   loop 1 "for _, key := range keys"
-//@     invariant -1 <= rangeindex && rangeindex < len(keys) && (len(result) == 0 || arrayOf(result) >= old(W)) && (len(result) == 0 ==> cap(result) == 0)
+//@     invariant -1 <= rangeindex && rangeindex < len(keys) && (arrayOf(result) == 0 || arrayOf(result) >= old(W)) && (len(result) == 0 ==> cap(result) == 0)
 //@     invariant strictlyAsc(keys) && (len(result) == 0 || arrayOf(result) != arrayOf(keys))
 //@     invariant forall j :: 0 <= j && j < len(keys) ==> keys[j] in input
 //@     invariant forall k :: k in input ==> exists j :: 0 <= j && j < len(keys) && keys[j] == k
@@ -73,3 +73,72 @@ package util
 //@     invariant forall j :: 0 <= j && j < len(result) ==> result[j] in input
 //@     invariant forall j :: 1 <= j && j < len(result) ==> input[result[j-1]] != input[result[j]]
 //@     invariant forall i, j :: 0 <= i && i <= rangeindex && 0 <= j && j < len(result) && result[j] <= keys[i] && (j == len(result)-1 || keys[i] < result[j+1]) ==> input[result[j]] == input[keys[i]]
+
+// ---- ghost state of the I/O model -------------------------------------------------------------
+//@ ghost var fileInt gmap[string]int
+//@ ghost var faithful gset[string]
+//@ ghost var procWorld int
+
+// ---- assumed contracts of dependencies used across packages -----------------------------------
+//@ extern func fmt.Errorf(format string, a []any) (err error)
+//@   ensures err != nil
+//@   trusted "fmt.Errorf returns a non-nil error"
+//@ extern func fmt.Sprintf(format string, a []any) (s string)
+//@   effectfree
+//@   trusted "pure string formatting"
+//@ extern func errors.New(text string) (err error)
+//@   ensures err != nil
+//@   trusted "errors.New returns a non-nil error"
+//@ extern func strconv.Itoa(i int) (s string)
+//@   effectfree
+//@   ensures s == itoa(i)
+//@   trusted "pure"
+//@ extern func strconv.ParseFloat(s string, bitSize int) (f float64, err error)
+//@   trusted "ParseFloat accepts nan/inf spellings: on success the result is any float64, finite or not"
+//@ extern func strings.HasPrefix(s string, prefix string) (b bool)
+//@   effectfree
+//@   ensures b ==> len(s) >= len(prefix)
+//@   trusted "pure"
+//@ extern func strings.ReplaceAll(s string, old string, new string) (r string)
+//@   effectfree
+//@   trusted "pure"
+//@ extern func strings.Trim(s string, cutset string) (r string)
+//@   effectfree
+//@   trusted "pure"
+//@ extern func os/user.Current() (u *user.User, err error)
+//@   ensures err == nil ==> u != nil
+//@   trusted "user.Current returns a user or an error"
+//@ extern func path/filepath.Join(elem []string) (p string)
+//@   effectfree
+//@   trusted "pure"
+//@ extern func os.Stat(name string) (info fs.FileInfo, err error)
+//@   ensures (err == nil) == (info != nil)
+//@   trusted "os.Stat returns exactly one of FileInfo / error"
+
+//@ opaque func ReadIntFromFile
+//@   ensures err == nil ==> value == fileInt[path]
+//@   ensures err != nil ==> value == -1 || true
+//@   trusted "I/O model: a successful read returns the integer content of the file; may fail at every call"
+//@ opaque func WriteIntToFile
+//@   ensures result == nil && path in faithful ==> fileInt[path] == value
+//@   ensures forall p string :: p != path ==> fileInt[p] == old(fileInt)[p]
+//@   modifies fileInt
+//@   trusted "I/O model: a write may fail; on success a faithful file holds the value, any other file may ignore or alter it; no other path changes"
+//@ opaque func WriteIntToFileAtomic
+//@   ensures result == nil && path in faithful ==> fileInt[path] == value
+//@   ensures forall p string :: p != path ==> fileInt[p] == old(fileInt)[p]
+//@   modifies fileInt
+//@   trusted "I/O model as WriteIntToFile"
+
+//@ opaque func SafeCmdExecution
+//@   ensures result1 != nil ==> result0 == ""
+//@   modifies procWorld
+//@   trusted "PLACEHOLDER until the body is under contract (C18/C19)"
+
+//@ extern func sort.Ints(x []int)
+//@   ensures forall i, j :: 0 <= i && i < j && j < len(x) ==> x[i] <= x[j]
+//@   ensures forall i :: 0 <= i && i < len(x) ==> exists j :: 0 <= j && j < len(x) && old(x[j]) == x[i]
+//@   ensures forall j :: 0 <= j && j < len(x) ==> exists i :: 0 <= i && i < len(x) && x[i] == old(x[j])
+//@   ensures (forall a, b :: 0 <= a && a < b && b < len(x) ==> old(x[a]) <= old(x[b])) ==> (forall i :: 0 <= i && i < len(x) ==> x[i] == old(x[i]))
+//@   modifies x[_]
+//@   trusted "sort.Ints sorts ascending, permutes, and leaves an already sorted slice unchanged"
